@@ -521,7 +521,10 @@ class Escape:
         if r == "safe":
             return
         if r is None:
-            if any(kinds) or (isinstance(f, ast.Attribute) and self.expr_tainted(f.value, taint, ci, mod)):
+            recv_kind = self.expr_kind(f.value, taint, ci, mod) if isinstance(f, ast.Attribute) else None
+            if isinstance(f, ast.Attribute) and recv_kind == "num" and not any(k == "raw" for k in kinds):
+                return      # method of a number / derived value (int.bit_length, ...): total
+            if any(kinds) or recv_kind:
                 self.unresolved.append((n, mod, self.qn(ci, fd)))
             return
         for c2, m2, self_first in r:
